@@ -16,6 +16,10 @@ C12.i tree order key (sibling agreement, D20): trees are stored ordered by the U
   parent cursor walk compares Node::name()). Every ORDERING comparison of node names in the crate (Ord::cmp / PartialOrd /
   max / min) takes Node::name() - never the escaped `Node.name` string, whose order differs for names containing a quote,
   backslash, control or non-UTF-8 bytes: a k-way merge keyed by the escaped string emits such names twice.
+C12.j renamed nodes keep the tree ordered (D21, known finding): a Visitor::process_node that changes a node's name (repair appends
+  a suffix to files with lost content) hands the node back to TreeModifier::modify_tree, which must then re-establish name
+  order and uniqueness (a sort after the adds, or a sorted / de-duplicating Tree::add) - otherwise the rewritten tree is
+  unsorted and may list a name twice.
 C12.e also: the merged subtree is attached only if the winning node itself is a directory.
 C12.h processed-tree caches of tree visitors are keyed by everything the processing depends on: the rewrite visitor matches
   globs against the path, so its caches must be keyed by (path, tree id); repair's is path-independent.
@@ -200,6 +204,44 @@ def run(ctx, rep):
                   what=f"{fn_key(b)} orders nodes by the escaped `Node.name` string; stored trees are ordered by the unescaped name (Node::name()), so names containing a quote, backslash or non-UTF-8 bytes are visited out of order (merge lists them twice)")
     rep.check("C12.i", "no-ordering-on-escaped-name", not raw_sites, where=MN.loc(), what=f"no ordering comparison in rustic_core takes the escaped Node.name field ({n_unesc} ordering comparisons use Node::name())")
     rep.floor("C12.i", "ordering comparisons on node names examined (unescaped + escaped)", n_unesc + len(raw_sites), 2)
+    # ---- C12.j -------------------------------------------------------------------------------------
+    rep.rule("C12.j", "a visitor that renames a node is followed by a re-sort of the rebuilt tree")
+    REN = re.compile(r"String as std::ops::AddAssign<.*>>::add_assign$|String::(push_str|push|insert_str|insert|clear|truncate|replace_range)$")
+    renamers = []
+    for b in prog.by_crate["rustic_core"]:
+        if not re.search(r"modify::Visitor>::process_node$", b.path):
+            continue
+        hit = None
+        for bb, t in b.calls():
+            if "callee" in t and REN.search(callee(t)) and t["args"] and op_place(t["args"][0]):
+                pp = flow.place_path(b, op_place(t["args"][0]))
+                sl_ok = pp is not None and pp[1] and pp[1][-1] == "name"
+                if not sl_ok:
+                    # `&mut node.name` taken into a temporary first
+                    for d_ in b.defs().get(op_local(t["args"][0]), []):
+                        if d_[0] == "stmt" and d_[4][0] in ("refmut", "ref") and place_has_field(d_[4][1], "name", "backend::node::Node"):
+                            sl_ok = True
+                if sl_ok:
+                    hit = bb
+        for bi, blk in enumerate(b.blocks):
+            for s_ in blk["s"]:
+                if s_[0] == "=" and place_has_field(s_[1], "name", "backend::node::Node") and isinstance(s_[1][-1], list) and s_[1][-1][0] == "f" and s_[1][-1][2] == "name":
+                    hit = bi
+        if hit is not None:
+            renamers.append((b, hit))
+    MT = prog.find1(r"^rustic_core::blob::tree::modify::TreeModifier::<'a, BE, I>::modify_tree$")
+    adds_ = [bb for bb, t in MT.calls() if "callee" in t and callee(t).endswith("blob::tree::Tree::add")]
+    rep.require("C12.j", "modify_tree/assembles-with-Tree::add", len(adds_) >= 1, where=MT.loc(), what="TreeModifier::modify_tree rebuilds the tree with Tree::add")
+    SORT = re.compile(r"::(sort|sort_by|sort_by_key|sort_unstable|sort_unstable_by|sort_unstable_by_key|sort_by_cached_key|binary_search_by|binary_search_by_key|dedup_by|dedup_by_key)$")
+    TA = prog.bodies.get("rustic_core::blob::tree::Tree::add")
+    sorted_add = TA is not None and any("callee" in t and SORT.search(callee_decl(t) + " " + callee(t)) for _, t in TA.calls())
+    resort = any("callee" in t and SORT.search(callee_decl(t) + " " + callee(t)) and any(bb in MT.reachable_from(a) for a in adds_) for bb, t in MT.calls())
+    for b, bi in renamers:
+        okr = sorted_add or resort
+        rep.check("C12.j", f"{fn_key(b)}/renamed-node-resorted", okr, where=where(b, bi),
+                  what=f"{fn_key(b)} changes Node.name and modify_tree re-sorts the rebuilt tree" if okr else
+                       f"{fn_key(b)} changes Node.name in place, and TreeModifier::modify_tree adds the nodes in their old order without re-sorting or checking for an existing entry of the new name: the rewritten tree is out of name order and can list one name twice")
+    rep.count("C12.j: visitors renaming nodes", str(len(renamers)))
     # ---- C12.f -------------------------------------------------------------------------------------
     PN = prog.find1(r"^<rustic_core::commands::repair::snapshots::RepairState<'_, I> as rustic_core::blob::tree::modify::Visitor>::process_node$")
     fam = [PN] + prog.closures_of(PN)
